@@ -1,11 +1,11 @@
 /* C16 harness.
-   P <file> <func> <seed> <nedits>
+   P <file> <func> <seed> <nedits> [i]        (i: the function is interpreted first)
        tie for coq/C16/GenProtocol.v: calls the real _MIR_duplicate_func_insns, applies a seeded edit
        script to the working copy through the public API (the kinds of edits the generator makes),
        calls _MIR_restore_func_insns, and prints the function in the model's vocabulary before,
        in between and after, plus the script in the model's edit language:
          P init=<F> dup=<F> script=<edits> work=<F> final=<F> readd=<ok|FAIL>
-         F = insns/origs/vars/ovn/lrefs/gvars/regtab ; insn = id.L.payload.r,r ; lref = lab,lab2,orig,orig2 ;
+         F = insns/origs/vars/ovn/lrefs/gvars/regtab ; insn = id.L.payload.r,r.D (D = insn->data != NULL) ; lref = lab,lab2,orig,orig2 ;
              regtab = name.number,... (as MIR_reg / MIR_reg_name answer for every var and global var)
    G <file> | <op> ; <op> ...
        end-to-end: load m,m | link iface | opt n | gen f | call f sig args | icall f sig args | snap
@@ -111,6 +111,7 @@ static void print_insn_list (MIR_func_t func, MIR_insn_t head, int assign) {
         printf ("%s%d", fr ? "" : ",", id_of (i->ops[k].u.label));
         fr = 0;
       }
+    printf (".%d", i->data != NULL);
   }
 }
 static jmp_buf err_jmp;
@@ -220,10 +221,12 @@ static void MIR_NO_RETURN p_err_func (MIR_error_type_t t, const char *fmt, ...) 
 
 static void do_P (char *line) {
   char *w[8];
-  if (split_words (line, w, 8) != 5) {
+  int nw = split_words (line, w, 8);
+  if (nw != 5 && nw != 6) {
     printf ("BAD\n");
     return;
   }
+  int interp_first = nw == 6; /* P file func seed nedits i: the function runs in the interpreter first */
   pz_poison = 1;
   ctx = MIR_init2 (&pz_alloc, NULL);
   MIR_set_error_func (ctx, p_err_func);
@@ -245,6 +248,13 @@ static void do_P (char *line) {
   MIR_func_t func = item->u.func;
   lcg = strtoull (w[3], NULL, 10) * 2654435761u + 12345;
   int nedits = atoi (w[4]);
+  if (interp_first) { /* prepared for interpretation and run (all arguments zero) */
+    MIR_val_t args[64], res[8];
+    memset (args, 0, sizeof (args));
+    memset (res, 0, sizeof (res));
+    if (!func->vararg_p && func->nargs <= 64 && func->nres <= 8)
+      MIR_interp_arr (ctx, item, res, func->nargs, args);
+  }
   printf (" init=");
   print_func (func, 1);
   size_t nvars0 = VARR_LENGTH (MIR_var_t, func->vars);
